@@ -1420,7 +1420,8 @@ impl World for OpsWorld {
                 let after = b[..].to_vec();
                 let addr_after = b.as_ptr() as usize;
                 drop(g);
-                if after != want || addr_after != addr_before {
+                // (Under C01 the history goes on to the re-use of the buffer, which is what C01 judges.)
+                if (after != want || addr_after != addr_before) && self.cfg.prop != "C01" {
                     self.report("C08", "edit-moved-or-changed", format!("edit {e} of a handed-out pool buffer holding {before:02x?} at {addr_before:#x}: now {after:02x?} at {addr_after:#x}, expected {want:02x?} at the same place"));
                 }
                 // What the kernel wrote for this buffer, as the model remembers it.
@@ -1545,6 +1546,15 @@ impl World for OpsWorld {
             )
         });
         h.push_str(&ring);
+        // Handed-out pool buffers can be edited in place and handed back to the kernel: what they hold is state.
+        if self.cfg.edit_held || self.cfg.reread_held {
+            h.push_str(&format!(" edits={}", self.edits_done));
+            for s in &self.slots {
+                for b in s.held.1.borrow().iter() {
+                    h.push_str(&format!(" buf{:02x?}", &b[..]));
+                }
+            }
+        }
         crate::report::hash_str(&h)
     }
 
